@@ -29,7 +29,7 @@ def run(ctx):
 
     th = threading.Thread(target=model)
     conf = {'cases': 10, 'max_per_field': 8} if ctx.quick else {'cases': 10 ** 6, 'max_per_field': 14}
-    specs = sh.trace_specs(ctx, 'c07', 1 if ctx.quick else 2)
+    specs = sh.trace_specs(ctx, 'c07', 1)
     res = sh.generate(specs, conf, nproc=6 if ctx.quick else 14)
     th.start()  # only after the fork pool is gone: forking with a live thread can deadlock the children
     val = sh.validate_all(ctx, res)
